@@ -110,8 +110,8 @@ Fixpoint bad_idx {A} (f : A -> bool) (l : list A) (i : nat) : list nat :=
   | x :: r => if f x then bad_idx f r (S i) else i :: bad_idx f r (S i)
   end.
 
-Definition mismatches (c : pcfg) (ss : list scase) (rs : list rcase) (cs : list ccase) : list nat * list nat * list nat :=
-  (bad_idx (scase_ok c) ss 0, bad_idx (rcase_ok c) rs 0, bad_idx (ccase_ok c) cs 0).
+Definition mismatches (c : pcfg) (ss : list scase) (cs : list ccase) (rs : list rcase) : list nat * list nat * list nat :=
+  (bad_idx (scase_ok c) ss 0, bad_idx (ccase_ok c) cs 0, bad_idx (rcase_ok c) rs 0).
 
 Definition mkcfg (b : bool) : pcfg := {| store_untyped := b |}.
 Definition ro (r : sres) (ev : list (nat * N * N * string)) : robs := {| ro_res := r; ro_events := ev |}.
